@@ -233,6 +233,24 @@ kv_vcheck(const void *data, size_t len, int vid, int sz) {
   return memcmp(tmp, data, len) == 0;
 }
 
+/* identify a value: 1 if the bytes are exactly what write <vid> of some size class produced.
+ * Uses a caller-supplied scratch buffer (thread bodies must not share one). */
+int
+kv_vparse(const void *data, size_t len, int *vid, int *sz, unsigned char *scratch) {
+  const unsigned char *d = data;
+  int s;
+  if (len < 10 || d[0] != 'v' || d[9] != ':')
+    return 0;
+  *vid = atoi((const char *)d + 1);
+  for (s = VS_SHORT; s <= VS_1M; s++)
+    if (kv_vlen(s) == len) {
+      *sz = s;
+      kv_vgen(scratch, *vid, s);
+      return memcmp(scratch, data, len) == 0;
+    }
+  return 0;
+}
+
 uint64_t
 kmodel_hash(const kmodel_t *m) {
   uint64_t h = 17;
@@ -968,5 +986,122 @@ kv_files_exact_check(ldb_t *db, const char *dbdir, char *err, size_t en) {
     return 0;
   }
   return 1;
+}
+
+
+/* ------------------------------------------------------------------ */
+/* observation of a database whose batches carried marker keys        */
+/* ------------------------------------------------------------------ */
+
+static int
+parse_vid(const ldb_slice_t *v, int *vid, int *sz) {
+  const unsigned char *d = v->data;
+  int s;
+  if (v->size < 10 || d[0] != 'v' || d[9] != ':')
+    return 0;
+  *vid = atoi((const char *)d + 1);
+  for (s = VS_SHORT; s <= VS_1M; s++)
+    if (kv_vlen(s) == v->size) {
+      *sz = s;
+      return kv_vcheck(v->data, v->size, *vid, s);
+    }
+  return 0;
+}
+
+void
+kv_observe(ldb_t *db, const kack_t *acks, int nacks, kobs_t *o) {
+  int k, i;
+  ldb_iter_t *it;
+  int seen_user[KV_MAXKEYS] = {0};
+  uint32_t seen_mark = 0;
+  o->U = 0;
+  memset(&o->m, 0, sizeof(o->m));
+  for (k = 0; k < kv_nkeys; k++) {
+    ldb_slice_t key = ldb_slice(kv_keys[k], kv_keylen[k]), val;
+    int rc = ldb_get(db, &key, &val, NULL);
+    if (rc == LDB_OK) {
+      int vid, sz;
+      if (!parse_vid(&val, &vid, &sz)) {
+        o->bad = 1;
+        snprintf(o->err, sizeof(o->err), "key #%d holds bytes that no issued write produced (len=%zu)", k, val.size);
+      } else {
+        o->m.vid[k] = vid;
+        o->m.sz[k] = (unsigned char)sz;
+      }
+      ldb_free(val.data);
+    } else if (rc != LDB_NOTFOUND) {
+      o->bad = 1;
+      snprintf(o->err, sizeof(o->err), "get of key #%d returned status %d (%s) after recovery", k, rc, ldb_strerror(rc));
+    }
+  }
+  for (i = 0; i < nacks; i++) {
+    char mk[8];
+    ldb_slice_t key, val;
+    int rc;
+    kv_marker_key(acks[i].opidx, mk);
+    key = ldb_slice(mk, 3);
+    rc = ldb_get(db, &key, &val, NULL);
+    if (rc == LDB_OK) {
+      int vid, sz;
+      if (!parse_vid(&val, &vid, &sz) || vid != kh_vid(acks[i].opidx, 7)) {
+        o->bad = 1;
+        snprintf(o->err, sizeof(o->err), "marker of batch %d holds foreign bytes", i);
+      }
+      o->U |= 1u << i;
+      ldb_free(val.data);
+    } else if (rc != LDB_NOTFOUND) {
+      o->bad = 1;
+      snprintf(o->err, sizeof(o->err), "get of marker %d returned status %d after recovery", i, rc);
+    }
+  }
+  /* full scan must show exactly the same entries */
+  it = ldb_iterator(db, NULL);
+  for (ldb_iter_first(it); ldb_iter_valid(it); ldb_iter_next(it)) {
+    ldb_slice_t key = ldb_iter_key(it), val = ldb_iter_value(it);
+    int vid, sz, found = 0;
+    if (!parse_vid(&val, &vid, &sz)) {
+      o->bad = 1;
+      snprintf(o->err, sizeof(o->err), "scan yields a value no issued write produced");
+      continue;
+    }
+    for (k = 0; k < kv_nkeys; k++)
+      if (key.size == kv_keylen[k] && (key.size == 0 || memcmp(key.data, kv_keys[k], key.size) == 0)) {
+        found = 1;
+        seen_user[k] = 1;
+        if (o->m.vid[k] != vid || o->m.sz[k] != sz) {
+          o->bad = 1;
+          snprintf(o->err, sizeof(o->err), "scan and get disagree on key #%d (scan v%d, get v%d)", k, vid, o->m.vid[k]);
+        }
+      }
+    if (!found && key.size == 3 && ((char *)key.data)[0] == 'm') {
+      for (i = 0; i < nacks; i++) {
+        char mk[8];
+        kv_marker_key(acks[i].opidx, mk);
+        if (memcmp(mk, key.data, 3) == 0) {
+          found = 1;
+          seen_mark |= 1u << i;
+        }
+      }
+    }
+    if (!found) {
+      o->bad = 1;
+      snprintf(o->err, sizeof(o->err), "scan yields a key that was never written (len=%zu)", key.size);
+    }
+  }
+  if (ldb_iter_status(it) != LDB_OK) {
+    o->bad = 1;
+    snprintf(o->err, sizeof(o->err), "iterator status %d after recovery", ldb_iter_status(it));
+  }
+  ldb_iter_destroy(it);
+  for (k = 0; k < kv_nkeys; k++)
+    if ((o->m.vid[k] != 0) != seen_user[k] && !o->bad) {
+      o->bad = 1;
+      snprintf(o->err, sizeof(o->err), "scan and get disagree on the presence of key #%d", k);
+    }
+  if (seen_mark != o->U && !o->bad) {
+    o->bad = 1;
+    snprintf(o->err, sizeof(o->err), "scan and get disagree on the marker set (%x vs %x)", seen_mark, o->U);
+  }
+  o->hash = vh_mix(kmodel_hash(&o->m), o->U);
 }
 
